@@ -55,9 +55,10 @@ def _ray3d_status(
             [z[min(i + 1, nz - 1)], x[min(j + 1, nx - 1)], y[min(k + 1, ny - 1)]]
         )
 
-        isrc = np.searchsorted(z, zsrc, side="right") - 1
-        jsrc = np.searchsorted(x, xsrc, side="right") - 1
-        ksrc = np.searchsorted(y, ysrc, side="right") - 1
+        # A source on the far boundary belongs to the last cell
+        isrc = min(np.searchsorted(z, zsrc, side="right") - 1, nz - 2)
+        jsrc = min(np.searchsorted(x, xsrc, side="right") - 1, nx - 2)
+        ksrc = min(np.searchsorted(y, ysrc, side="right") - 1, ny - 2)
 
     count = 1
     pcur = np.array([zend, xend, yend], dtype=np.float64)
